@@ -999,10 +999,12 @@ def correspond(ctx):
         check_empty_step(ctx, gen_empty_step(ctx.rng, ctx.tier))
     for _ in range(120 if quick else 2000):
         check_rename(ctx, gen_rename_case(ctx.rng, ctx.tier))
-    ctx.assumptions.append("sarkka_bilmes_product: the theorem sarkka_eq_naive is about the chain of window transition "
-                           "matrices (block structure, slices, remainder recursion, mixed scan); that the pointwise "
-                           "product of the shifted factors of a block IS the product of its window matrices rests on "
-                           "the name-arithmetic lemmas plus correspondence (funsor vs Lean windowMat/sarkka/fold)")
+    ctx.assumptions.append("sarkka_bilmes_product: proved equal to naive_sarkka_bilmes_product as relative-name funsors "
+                           "for durations that are a multiple of the period or shorter than one period "
+                           "(Props/C10/Terms.lean), on the window chain and in absolute time for every duration "
+                           "(Sarkka.lean, Sem.lean); the term-level treatment of 0 < T % period < T, several base "
+                           "variables as separate name spaces, and the string-level names rest on the arithmetic lemmas "
+                           "plus correspondence (funsor vs Lean windowMat/sarkka/fold)")
     ctx.assumptions.append("eager_markov_product with empty step and a time-independent transition raises "
                            "AttributeError on the pinned tree (time.size): a decline; the closed forms trans*T / "
                            "trans**T are modelled and proved but exercised only if that line is repaired")
